@@ -7,6 +7,8 @@ def pElem (s : String) : Option (Elem Plan.Stmt) :=
   match s.splitOn ":" with
   | "X" :: _ => some .prose
   | "C" :: rest => (parsePStmt (":".intercalate rest)).map .code
+  -- a code line with a trailing comment: the statement alone
+  | "T" :: _ :: rest => (parsePStmt (":".intercalate rest)).map .code
   | "F" :: name :: rest =>
     (match ((":".intercalate rest).splitOn "|").mapM parsePStmt with
      -- `-` a plain mech fence, `#` a hidden one (mech:hidden), `%` one whose output is switched off
